@@ -122,6 +122,36 @@ def chm_cycles(rng):
             struct.pack_into("<I", b, off + 0x10, first + (k + 1) % len(pm))
         out.append(([f"file {nm} {bytes(b).hex()}", "new chm", f"fastopen i0 {nm}", "fastfind i0 h0 7a7a7a7a7a7a7a7a", "close i0 h0", "destroy i0"],
                     dict(family="chm.pmgl-cycle")))
+    # (b) an index chunk whose entries all point back at the index chunk itself, the header's "depth" honest, zero and huge
+    def encint_at(buf, p):
+        v = 0; q = p
+        while True:
+            c = buf[q]; q += 1; v = (v << 7) | (c & 0x7F)
+            if not c & 0x80: return v, q
+    made = 0; tries = 0
+    while made < 3 and tries < 200:
+        tries += 1
+        try:
+            c = chm.random_case(rng, "small", index_levels=1)
+        except Exception:
+            continue
+        nm = c["meta"]["order"][0]; b = bytearray(c["files"][nm])
+        it = b.find(b"ITSP")
+        if it < 0 or c["meta"].get("depth") != 2 or not c["members"]: continue
+        chunk_size = struct.unpack_from("<I", b, it + 0x10)[0]; root = struct.unpack_from("<I", b, it + 0x1C)[0]
+        off = it + 0x54 + root * chunk_size
+        if b[off:off + 4] != b"PMGI" or root >= 128: continue
+        n = struct.unpack_from("<H", b, off + chunk_size - 2)[0]; p = off + 8
+        for _ in range(n):
+            ln, p = encint_at(b, p); p += ln
+            _, q = encint_at(b, p)
+            b[p:q] = b"\x80" * (q - p - 1) + bytes([root]); p = q
+        made += 1
+        names = [c["members"][0]["name"], c["members"][-1]["name"], b"/zzzz"]
+        for depth in (2, 0, 1, 0xFFFFFFFF, 0x7FFFFFFF, 0x10000):
+            b2 = bytearray(b); struct.pack_into("<I", b2, it + 0x18, depth)
+            out.append(([f"file {nm} {bytes(b2).hex()}", "new chm", f"fastopen i0 {nm}"] + [f"fastfind i0 h0 {x.hex() or '='}" for x in names] + ["close i0 h0", "destroy i0"],
+                        dict(family="chm.pmgi-cycle", depth=depth)))
     return out
 
 def generate(ctx):
